@@ -6,7 +6,7 @@ to every data event after the field is stored; arguments of CHECK/LOGIN/LOGIN2 a
 client's own fields; every copy of server data is bounded; the password shape gate.  Not
 decided: the ~ marking and truncation *values* (string contents)."""
 from ..facts import AnalysisBroken
-from ..model import sx, walk, is_var, is_field, const_of, vars_in, root_var, same, on_path
+from ..model import sx, walk, is_var, is_field, const_of, vars_in, root_var, same, on_path, rel
 from .. import rules, core, holds, bnd
 
 EXPLANATION = (
@@ -118,6 +118,16 @@ def no_flag_keyed_exit(P, R, b, rule='C06.GRD.3'):
     R.floor(rule, 1)
 
 
+def fanout_complete(P, R, b, rule='C06.MPT.2'):
+    """The query builder looks at every service slot: an empty or disabled slot (left behind by a reload) is skipped,
+    it does not end the fan-out for the services configured behind it."""
+    def head(c):
+        r = rel(c, True)
+        return bool(r) and r[1] == '<' and isinstance(r[2], dict) and r[2].get('k') == 'mem' and r[2].get('field') == 'used'
+    n = rules.full_traversal(P, R, rule, b, head, 'query fan-out over the service table')
+    R.floor(rule, 1)
+
+
 def type_range(P, R, rule='C06.TAB.2'):
     """Every value stored into a service's protocol field is one of the enumerators: code that tests the protocol
     by exclusion (`!= DRONECHECK`) or indexes the per-protocol tables relies on it.  Decided by the numeric analysis."""
@@ -151,7 +161,7 @@ def type_range(P, R, rule='C06.TAB.2'):
 ATOMS = ['slot', 'configured', 'prereq', 'unsent', 'pwevent', 'notdrone', 'pw', 'cls']
 
 
-def builder_guards(P, R, xq, b):
+def builder_guards(P, R, xq, b, mark_rule='C06.MPT.1'):
     srvv = None
     for s in b.sites():
         rhs = s.ev.get('rhs') if s.ev['k'] == 'store' else s.ev.get('init') if s.ev['k'] == 'decl' else None
@@ -221,6 +231,8 @@ def builder_guards(P, R, xq, b):
             if k.startswith('type:'):
                 if v:
                     # type known exactly
+                    if d.get(k) is False:
+                        return None
                     for k2 in [x for x in d if x.startswith('type:')]:
                         if d[k2] and k2 != k:
                             return None
@@ -229,6 +241,9 @@ def builder_guards(P, R, xq, b):
                     if d.get(k) is True:
                         return None
                     d[k] = False
+                    # the protocol is always one of the enumerators (type_range): all of them excluded = infeasible
+                    if tnames and all(d.get('type:' + nm) is False for nm in tnames.values()):
+                        return None
             else:
                 d[k] = v
         return tuple(sorted(d.items()))
@@ -241,9 +256,25 @@ def builder_guards(P, R, xq, b):
             d = dict(st)
             d.pop('unsent', None)
             return tuple(sorted(d.items()))
+        if ev['k'] == 'call' and xq in P.callees(s, False):
+            d = dict(st)
+            d['queried'] = True
+            return tuple(sorted(d.items()))
         return st
     before, _, sin, bout = b.forward((), on_event, on_edge)
     n = 0
+    # the converse of "every query is awaited": a service is marked awaited (and counted as asked) only on a path
+    # that sent it a query for this slot - otherwise a reply is owed by a service that was never asked
+    nm = 0
+    for s in b.stores():
+        ev = s.ev
+        if ev['k'] == 'store' and holds.outer_field(ev['lhs']) in (holds.MASK, 'sent_mask') and ev.get('op') == '|=':
+            sts = [dict(st) for st in before.get(s.key, set())]
+            nm += 1
+            R.ob(mark_rule, bool(sts) and all(d.get('queried') for d in sts), s,
+                 'the slot is marked in %s only on paths that sent the service a query' % holds.outer_field(ev['lhs']), key='mark-needs-query:%s' % holds.outer_field(ev['lhs']),
+                 detail=[str(sorted(d.items())) for d in sts if not d.get('queried')][:4] or None)
+    R.floor(mark_rule, 2, 'awaited / asked marks in the query builder')
     for s in b.calls():
         if xq not in P.callees(s, False):
             continue
@@ -716,6 +747,7 @@ def run(P, R, tier):
     shape_gate(P, R, b)
     query_callers(P, R, xq, b)
     no_flag_keyed_exit(P, R, b)
+    fanout_complete(P, R, b)
     # the prerequisite test is bitset_h_andnot(needed, present)
     rules.bitset_primitives(P, R, 'C06.TAB.3')
     type_range(P, R)
@@ -728,4 +760,10 @@ def run(P, R, tier):
     # queries carry the data exactly as the server reported it
     from . import c08
     c08.line_buffer_writes(P, R, 'C06.WMC.2')
+    # the prerequisites are bits of the request's flag word: nothing overwrites the word (hurry-up only adds to it)
+    from . import c01
+    V, softfns = c01.fmt_rules(P, Remap(R, {}))
+    c01.who_may(P, Remap(R, {'C01.WMC.1': 'C06.WMC.3'}, keys=('bulk', 'clears:')), V, softfns)
+    # the address in a query denotes the client's address: every significant digit of a group is printed
+    c12.digit_thresholds(P, Remap(R, {'C12.TAB.1': 'C06.TAB.4'}), pf, pout, pposv)
     return EXPLANATION, ASSUMPTIONS
